@@ -335,10 +335,13 @@ def rule_6(ctx):
     n = S.check_history(ctx, anchor, 'history', HISTORY_CELLS, _history_steps(ctx.tier != 'quick'), why=why, cache=cache)
     short = [('eval', 'E1'), ('eval', 'I1'), ('set', 'A1', -1), ('eval', 'E1'), ('eval', 'F1'), ('set', 'A3', 1), ('eval', 'I1'), ('eval', 'G1')]
     n += S.check_history(ctx, anchor, 'history through the model', HISTORY_CELLS, short, why=why, cache=cache, through_model=True)
+    cellwise = [('eval', 'E1'), ('eval', 'H1'), ('set', 'A1', -1), ('eval', 'E1'), ('eval', 'F1'), ('set', 'A4', 50), ('eval', 'O1'), ('set', 'A3', 1), ('eval', 'I1'),
+                ('eval', 'H1'), ('set', 'A1', True), ('eval', 'P1'), ('eval', 'Q1')]
+    n += S.check_history(ctx, anchor, 'history through XLCell addresses', HISTORY_CELLS, cellwise, why=why, cache=cache, through_model='cell')
     S.check_names_history(ctx, anchor, 'history with defined names',
                           'Setting an input through a defined name is equivalent to setting it through its address, and formulas that reach '
                           'the input through the name see the new value.')
-    ctx.floor(75, 'evaluations compared with a freshly compiled model / hand-computed values')
+    ctx.floor(90, 'evaluations compared with a freshly compiled model / hand-computed values')
 
 
 RULES = [
